@@ -4,6 +4,7 @@ import Kio.Spec.Wire
 import Kio.Generated.All
 import Kio.WireRec
 import Kio.Spec.Foreign
+import Kio.Spec.ConformsMix
 import Kio.Model.TablePreds
 import Kio.Generated.Info
 import Kio.Model.Phantom
@@ -166,6 +167,18 @@ def step (st : St) (line : String) : St × String :=
         | _ => (st, "bad-op")
       | none => (st, "bad-op")
     | _, _ => (st, "bad-op")
+  | "foreignmix" :: idx :: seed :: toks =>
+    -- foreignmix <cls> <seed> <value…>: a conforming encoding with per-occurrence choices
+    -- (`Spec.encMixed`, proved to lie in `Spec.Conforms`)
+    match idx.toNat?.bind (st.classes[·]?), seed.toNat?, parseValue toks with
+    | some s, some sd, some (v, []) =>
+      let cfg : Spec.MixCfg :=
+        { tags := [5, 0, 17, 1, 99, 2, 127, 128, 3, 300, 16383, 16384, 2 ^ 21, 2 ^ 35 - 1, 4, 7],
+          payloads := [[0xAA], [], [1, 2, 3, 4, 5], List.replicate 127 0x11, List.replicate 128 0x22,
+                       List.replicate 4097 0x5A, List.replicate 300 0x33] }
+      (st, match Spec.encMixed cfg sd s v with
+        | some b => s!"ok {hexTok b}" | none => "none")
+    | _, _, _ => (st, "bad-op")
   | ["isinst", tname, kind, arg] =>
     -- isinst <type> <int|bool|float|str|bytes|td|dta|dtn|none|other> <arg>
     let ty : Option PType := match tname with
